@@ -34,9 +34,11 @@ def ty(q: Dict[str, Any], env: Dict[str, Any]):
         return METH[q["n"]]
     if k == "coll":
         return ("seq", ("obj",))
+    if k == "sub":
+        return ty(q["a"], env)[1]
     if k == "bin":
-        if q["op"] == "/":
-            return "double"
+        if q["op"] in ("/", "**"):
+            return "double"  # (an int power with a negative exponent is a fraction: the column must be floating)
         return join(ty(q["a"], env), ty(q["b"], env))
     if k in ("cmp", "and", "or", "not"):
         return "bool"
